@@ -440,13 +440,22 @@ fn load(rep: &mut Report) {
 }
 
 pub fn run(a: &Args, rep: &mut Report) {
+    #[cfg(not(miri))]
     trapemu::install();
     let mut r = Rng::derive(a.seed, "c12", a.shard);
+    if cfg!(miri) {
+        // structure code only: raw-byte layout of the table and Index<u8>
+        layout(rep);
+        return;
+    }
     layout(rep);
-    ranges(rep, &mut r, a.thorough(), a.shard, a.nshards);
-    typed_handlers(rep);
-    for _ in 0..20 {
-        load(rep);
+    if !cfg!(miri) {
+        // inline asm (reading CS, trapped lidt) cannot run in the interpreter; the structure code above and below can
+        ranges(rep, &mut r, a.thorough(), a.shard, a.nshards);
+        typed_handlers(rep);
+        for _ in 0..20 {
+            load(rep);
+        }
     }
     gates(rep, &mut r, a.budget(60_000, 8_000_000));
 }
